@@ -115,7 +115,7 @@ func invReadings(h *big.Int) (invA, invB *big.Float) {
 // [2^-250, 0.01], all pairs with n*p*(1-p) <= 2.5e5) is
 //
 //	stake            quick grid   thorough grid   n*ln(n+1)*2^-53   tolerance
-//	1 .. 64          2.8e-12      2.3e-11         <= 3e-14          5e-10
+//	1 .. 100         2.8e-12      2.4e-11         <= 5e-14          5e-10
 //	1000 .. 10^4     3.0e-11      4.9e-11         <= 1.0e-11        5e-10
 //	10^5             -            4.9e-10         1.3e-10           2.0e-9
 //	10^6             3.5e-9       4.1e-9          1.5e-9            2.4e-8
@@ -128,9 +128,10 @@ func invReadings(h *big.Int) (invA, invB *big.Float) {
 // stakes the rounding of 1.0-(1.0-p) (gonum evaluates I(j+1, n-j, 1-P) with
 // P = 1.0-p), a relative (j+1)*2^-54/p, at most 4.9e-11 for the smallest p of
 // the grid (26/10^6) and the deepest cell.  The tolerance is >= 4 times the
-// measured maximum of its stake everywhere (10 times below 10^5) and does not
-// degrade with depth: the error is flat from tail 0.01 down to 2^-250 (no
-// underflow there; gonum flushes to 0 only below e^-708).  It stays below the
+// measured maximum of its stake everywhere (10 times below 10^5).  The window
+// ends at 2^-250, far above the point where gonum flushes to 0 (e^-708); down
+// to there the error shows no degradation with depth beyond the linear factor
+// (j+1) of (b).  The tolerance stays below the
 // probe offsets 1e-9 (stakes up to 10^4) and 1e-6 (all stakes), so those
 // probes have exactly one admissible seat count.  The large-variance regime
 // n*p*(1-p) > 2.5e5 (continued fraction not converged, known finding) is
